@@ -334,6 +334,47 @@ RAW_FD_MULTILINE = [
     "true <<EOF 3</nonexistent/x\nh\nEOF",
 ]
 KF_COPROC = "KF-C18-coproc-fds"
+KF_COMPRO = "KF-C18-compgen-readonly-comp-var"
+KF_FNREDIR = "KF-C18-fn-redirect-caller-params"
+
+# round 4: early-return paths of the dispatchers themselves. (a) functions whose DEFINITION carries a redirection
+# that cannot be opened at call time (missing directory, directory as target, missing input, closed descriptor,
+# noclobber hit, target depending on the function's own arguments, subshell body), called plainly, with temporary
+# assignments, through eval/command/a pipeline/another function/a trap handler; (b) completion functions run while
+# one of the COMP_* variables the protocol publishes cannot be assigned (readonly, globally or as a readonly local
+# of the caller). Used by the in-process fingerprint AND by the process-level error-path family (traps must still
+# fire afterwards, FUNCNAME/$#/$1 must be the caller's).
+ERRPATH_PROLOGUE = [
+    "fcomp() { COMPREPLY=(ca cb); }",
+    "fdr1() { echo \"m $*\"; } >>/nonexistent-c18/log.txt",
+    "fdr2() { echo \"m $*\"; } >$D/nonexistent/y",
+    "fdr3() { echo \"m $*\"; } <$D/nonexistent.in",
+    "fdr4() { echo \"m $*\"; } >$D/clobber.txt",
+    "fdr5() { local v=1; echo $v; } 2>$D/work",
+    "fdr6() ( echo sub ) >/nonexistent-c18/x",
+    "fdr7() { echo \"m $*\"; } >\"$D/$1/out\"",
+    "fdr8() { fdr1 inner; local w=2; return 3; }",
+    "fdr9() { echo x; } >&9",
+    "fdr10() { echo x; } >/dev/null 2>/nonexistent-c18/x 3>/dev/null",
+    "fdr11() { for i in 1 2; do fdr2 $i; fdr1 $i nonexistent; done; }",
+    "frocomp1() { local -r COMP_KEY=1; compgen -F fcomp -- x; }",
+    "frocomp2() { declare -r COMP_POINT=1; compgen -F fcomp -- x; return 5; }",
+    "frocomp3() { local -r COMP_CWORD=1; compgen -F fcomp -- x; compgen -F fcomp -- y; }",
+    "frocomp4() { local -r COMP_LINE=zz; local -r COMP_TYPE=1; compgen -F fdr1 -- x; }",
+    "frocomp5() { local -ra COMP_WORDS=(a b); compgen -F fcomp -- x; }",
+]
+ERRPATH_UNITS = [
+    "fdr1 a b c", "fdr2 a b", "fdr3", "set -C; fdr4 q; set +C", "fdr5 a", "fdr6", "fdr7 nonexistent", "fdr7 work", "fdr8 z", "fdr9 k",
+    "fdr10 a b", "fdr11", "X=1 fdr1 a", "X=1 Y=2 fdr7 nonexistent p q", "eval 'fdr1 a b'", "fdr1 a | true", "true | fdr2 b", "command fdr1",
+    "fdr1 || fdr2 x y || fdr3", "for j in 1 2 3; do fdr7 nonexistent $j; done", "if fdr1 a; then :; fi", "! fdr2 a b",
+    "trap 'fdr1 t u' ERR; false; trap - ERR", "compgen -F fdr1 -- x", "compgen -F fdr7 -- x", "( fdr1 a b )", "echo $(fdr1 a b)",
+    "fdr1 a >/dev/null", "fdr1 a >/nonexistent-c18/y",
+    "frocomp1", "frocomp2", "frocomp3", "frocomp4", "frocomp5", "X=1 frocomp1", "eval frocomp2", "frocomp1; frocomp3",
+    "( readonly COMP_WORDS; compgen -F fcomp -- x )",
+]
+# these leave a readonly variable behind for the rest of the session: only ever the LAST unit of a session's body
+ERRPATH_STICKY = ["readonly COMP_TYPE; compgen -F fcomp -- x", "readonly COMP_LINE; compgen -F fcomp -- x",
+                  "declare -r COMP_CWORD; compgen -F fcomp -- x; compgen -F ffail -- y", "readonly COMP_KEY COMP_POINT; compgen -F fcomp -- x"]
 
 RAW_PROLOGUE = [
     "fok() { :; }",
@@ -342,7 +383,7 @@ RAW_PROLOGUE = [
     "fret() { for i in 1 2; do while true; do return 7; done; done; }", "floopret() { for i in 1 2; do eval 'return 3'; done; }",
     "fdeep() { if [ ${#FUNCNAME[@]} -lt 6 ]; then fdeep; else . $D/nonexistent.sh; fi; }",
 ]
-RAW_FILES = {"empty.sh": "", "comments.sh": "# site-local overrides: none yet\n\n# x\n", "blank.sh": "  \n\t\n\n",
+RAW_FILES = {"clobber.txt": "keep\n", "empty.sh": "", "comments.sh": "# site-local overrides: none yet\n\n# x\n", "blank.sh": "  \n\t\n\n",
              "args.sh": ": $# $1\n"}
 # counters that are meant to grow: paths allowed to differ between 1, 2 and 50 iterations
 FP_ALLOW = ("last_exit_status_change_count", "current_line_offset", "last_stopwatch", "secs_since_epoch", "nanos_since_epoch",
@@ -371,11 +412,17 @@ def iterfp(ctx, n):
         allu = RAW_UNITS + RAW_FD_UNITS + RAW_FD_MULTILINE
         for _ in range(rng.randrange(1, 4)):
             body.insert(rng.randrange(0, len(body) + 1), rng.choice(RAW_FD_UNITS + RAW_FD_MULTILINE))
+        for _ in range(rng.randrange(0, 3)):
+            body.insert(rng.randrange(0, len(body) + 1), rng.choice(ERRPATH_UNITS))
         if k < len(allu):
             body.append(allu[k])        # every unit at least once on every run
+        elif k - len(allu) < len(ERRPATH_UNITS):
+            body.append(ERRPATH_UNITS[k - len(allu)])
+        elif k - len(allu) - len(ERRPATH_UNITS) < len(ERRPATH_STICKY):
+            body.append(ERRPATH_STICKY[k - len(allu) - len(ERRPATH_UNITS)])
         if k == n - 1:
             body, pro, files = ["coproc CPX { :; }"], [], {}   # the successful coproc: known finding
-        pro = RAW_PROLOGUE + pro
+        pro = RAW_PROLOGUE + [x for x in ERRPATH_PROLOGUE if x not in RAW_PROLOGUE] + pro
         files.update(RAW_FILES)
         c = [str(len(pro))] + pro + [str(len(body))] + body
         for nm, txt in files.items():
@@ -406,6 +453,94 @@ def iterfp(ctx, n):
     return len(cases), bad, {"sessions": len(cases), "raw_units": len(RAW_UNITS), "counters_allowed_to_grow_seen": allowed_seen}
 
 
+# ---------------------------------------------------------------------------------------------
+# round 4, process level, part of the verdict: after every early-return path of ERRPATH_UNITS the shell is the
+# caller's again (FUNCNAME depth, $#, $1), `return` outside a function is still refused, the ERR trap still fires for
+# the next failing command and the EXIT trap still runs; every iteration prints what the first printed. The status
+# line is also compared with bash 5.2.
+
+def errpath_script(unit, n, sticky):
+    lines = list(ERRPATH_PROLOGUE) + ["mkdir -p $D/work; echo keep >$D/clobber.txt",
+                                      "trap 'echo ERRTRAP' ERR", "trap 'echo EXITTRAP' EXIT", "set -- top"]
+    if sticky:
+        lines.append(sticky)
+    lines.append("vk=0; while [ $vk -lt %d ]; do echo ITER; %s; echo \"st=$? depth=${#FUNCNAME[@]} n=$# 1=${1-none}\"; "
+                 "return 2>/dev/null; echo \"ret=$?\"; echo MID; false; echo AFTER; vk=$((vk+1)); done" % (n, unit))
+    lines.append("echo END")
+    return "\n".join(lines) + "\n"
+
+
+def errpaths(ctx):
+    # the unit that installs its own ERR handler puts the observing one back instead of removing it
+    units = [(u.replace("trap - ERR", "trap 'echo ERRTRAP' ERR"), None) for u in ERRPATH_UNITS]
+    for st in ERRPATH_STICKY:
+        pre, _, rest = st.partition("; ")
+        units.append((rest, pre))
+    cases, metas = [], []
+    for j, (u, sticky) in enumerate(units):
+        fe = ("f", "s", "c")[(j + ctx.seed) % 3]
+        for sh in ("v", "b"):
+            cases.append([fe, sh, errpath_script(u, 4, sticky)])
+        metas.append({"unit": u, "readonly_before": sticky, "frontend": fe})
+    out = ctx.impl("trapsproc", cases, shards=min(core.NPROC, 8), timeout=1200,
+                   env={"VERIF_CASE_TIMEOUT": "60", "VERIF_CASE_CPU": "240"})
+    bad = []
+
+    def text(line):
+        if not line or line.startswith(("TIMEOUT", "DIED", "SPAWNFAIL")):
+            return None
+        f = core.dec_line(line)
+        return f[1] if len(f) > 1 else ""
+    for j, m in enumerate(metas):
+        tv, tb = text(out[2 * j]), text(out[2 * j + 1])
+        inp = {"script": cases[2 * j][2], "frontend": m["frontend"]}
+        if tv is None:
+            bad.append({"input": inp, "why": "process level (error paths): the run did not complete: %s" % out[2 * j][:80]})
+            continue
+        why = []
+        head, _, tail = tv.partition("END\n")
+        iters = head.split("ITER\n")[1:]
+        if len(iters) != 4 or not _:
+            why.append("the loop did not finish (%d iterations seen)" % len(iters))
+        if "EXITTRAP" not in tail.split("\n"):
+            why.append("the EXIT trap did not run at the end")
+        for k, it in enumerate(iters):
+            ls = it.split("\n")
+            stl = [l for l in ls if l.startswith("st=")]
+            if not stl or not stl[0].endswith(" depth=0 n=1 1=top"):
+                why.append("iteration %d: after `%s` the top level sees %r (expected depth=0 n=1 1=top)" % (k, m["unit"], stl[:1]))
+                break
+            if "ret=0" in ls:
+                why.append("iteration %d: `return` at top level succeeded after `%s`" % (k, m["unit"]))
+                break
+            mid = it.partition("MID\n")[2].partition("AFTER\n")[0]
+            if "ERRTRAP" not in mid.split("\n"):
+                why.append("iteration %d: the ERR trap did not fire for `false` after `%s`" % (k, m["unit"]))
+                break
+            if it != iters[0]:
+                why.append("iteration %d prints %r, the first printed %r" % (k, it[:200], iters[0][:200]))
+                break
+        v = None
+        if why:
+            v = {"input": inp, "why": "process level (error paths): " + "; ".join(why)}
+        elif tb is not None:
+            sv = [l for l in tv.split("\n") if l.startswith(("st=", "ret="))]
+            sb = [l for l in tb.split("\n") if l.startswith(("st=", "ret="))]
+            if sv != sb:
+                v = {"input": inp, "why": "process level (error paths): status lines differ from bash: brush %r, bash %r" % (sv[:2], sb[:2])}
+                # decidable class of the known finding: a completion function run while a COMP_* variable is readonly,
+                # brush reports status 1 where bash reports the function's result; nothing else differs
+                if ("COMP_" in (m["unit"] + (m["readonly_before"] or "")) or "frocomp" in m["unit"]) \
+                        and [l.split(" ", 1)[1:] for l in sv] == [l.split(" ", 1)[1:] for l in sb]:
+                    v["known"] = KF_COMPRO
+                # definition-time redirection words see the CALLER's positional parameters: exactly this witness
+                elif m["unit"] == "fdr7 work" and sv == [l.replace("st=0 ", "st=1 ", 1) for l in sb]:
+                    v["known"] = KF_FNREDIR
+        if v:
+            bad.append(v)
+    return len(metas), bad
+
+
 def run(ctx):
     hw = handwritten()
     progs = hw + gen(ctx, 1500 if ctx.quick else 12000)
@@ -417,6 +552,8 @@ def run(ctx):
         raise core.CheckBroken("extracted runner and vm_compute disagree on case %r" % (mcs[bad[0]],))
     fpn, fpbad, fpst = iterfp(ctx, 150 if ctx.quick else 1200)
     specv.extend(fpbad)
+    epn, epbad = errpaths(ctx)
+    specv.extend(epbad)
     ex = explore(ctx, 24 if ctx.quick else 150, (1, 2, 50, 500))
     for a in ex["anomalies"]:
         specv.append({"input": {"script": a["script"]}, "why": "process level: " + a["why"]})
@@ -428,7 +565,7 @@ def run(ctx):
     distinct = {json.dumps(c) for c, (_, funs, cmds, _) in zip(mcs, progs)
                 if any(n[0] in fault_kinds or n[0] in ("R", "X") for c2 in funs + cmds for n in c16.walk(c2))}
     return {
-        "evaluations": len(progs) + ex["runs_measured"] + fpn,
+        "evaluations": len(progs) + ex["runs_measured"] + fpn + epn,
         "distinct_nontrivial": len(distinct),
         "rule": "in-process sessions (one run_string per command, serde dump after each): %d hand-enumerated fault leaf x "
                 "nesting (function, nested function, eval, source, loop, return out of loop in function, subshell, "
